@@ -177,12 +177,12 @@ def C02_combine_agg_statement : Prop :=
     aggregate equal to the sentinel (`sum-sentinel`), no overflow when two partials are added
     (`sum-overflow-order`). -/
 theorem C02_combine_agg_partial (op : Agg) (l r : List (Int × Option Int))
-    (hl : C04.StrictAsc (l.map (·.1))) (hr : C04.StrictAsc (r.map (·.1))) (hc : Clean op l r) :
+    (hl : C04L.StrictAsc (l.map (·.1))) (hr : C04L.StrictAsc (r.map (·.1))) (hc : Clean op l r) :
     combineAgg op (encPart l) (encPart r) = .ok (encPart (mergeX op l r)) :=
   combineAgg_enc op l r hl hr hc
 
-example : C04.StrictAsc ([(1, some 10), (4, some 20)].map (·.1)) ∧ Clean .sum [(1, some 10), (4, some 20)] [(4, some 7)] := by
-  refine ⟨by simp [C04.StrictAsc], ?_, ?_, ?_⟩ <;> simp [CleanVal, ComboOk, inI64, I64_MIN, I64_MAX]
+example : C04L.StrictAsc ([(1, some 10), (4, some 20)].map (·.1)) ∧ Clean .sum [(1, some 10), (4, some 20)] [(4, some 7)] := by
+  refine ⟨by simp [C04L.StrictAsc], ?_, ?_, ?_⟩ <;> simp [CleanVal, ComboOk, inI64, I64_MIN, I64_MAX]
 example : combineAgg .sum (encPart [(1, some 10), (4, some 20)]) (encPart [(4, some 7)])
     = .ok (encPart [(1, some 10), (4, some 27)]) := by
   simp [combineAgg, encPart, enc, mergeX, combineX, Merge.mergeDedup, Merge.mergeAggregate, Merge.mergeAggLoop, Merge.combine, Merge.cmpEq, I64_MAX, inI64, I64_MIN]
@@ -231,7 +231,7 @@ theorem C02_sum_assoc_refuted : ¬ C02_sum_assoc_statement := by
 def TreeClean (op : Agg) : Tree (List (Int × Option Int)) → Prop
   | .leaf _ => True
   | .node l r => TreeClean op l ∧ TreeClean op r ∧
-      C04.StrictAsc ((l.eval (mergeX op)).map (·.1)) ∧ C04.StrictAsc ((r.eval (mergeX op)).map (·.1)) ∧
+      C04L.StrictAsc ((l.eval (mergeX op)).map (·.1)) ∧ C04L.StrictAsc ((r.eval (mergeX op)).map (·.1)) ∧
       Clean op (l.eval (mergeX op)) (r.eval (mergeX op))
 
 def Tree.map {α β : Type} (f : α → β) : Tree α → Tree β
